@@ -8,6 +8,7 @@ import (
 	"path/filepath"
 	"sync"
 
+	"github.com/NethermindEth/juno/utils/verifhook"
 	"github.com/cockroachdb/pebble/v2/record"
 	pebblewal "github.com/cockroachdb/pebble/v2/wal"
 )
@@ -132,6 +133,7 @@ func (w *walWriter) closeAndRepairCurrent(repairOffset int64, forceRepair bool) 
 	}
 
 	walPath := filepath.Join(w.dir, walNum.String()+".log")
+	verifhook.Point("walstore:abort:before-repair")
 	repairErr := repairWALTail(walPath, repairOffset)
 	if repairErr != nil {
 		w.repairRequired = true
